@@ -4,8 +4,8 @@
            gen/GenSimdConst.v, regenerated from simd/x86_64/*.asm on every run)
    c_*   : the C code of src/*.c (constants regenerated from the C files). *)
 From Coq Require Import List ZArith String Bool.
-From LJT Require Import lib.Words gen.GenSimdConst model.SimdColor model.SimdSample model.SimdQuant model.SimdDct
-  proofs.SimdColorProofs proofs.SimdSampleProofs proofs.SimdQuantProofs proofs.SimdConstProofs proofs.SimdDctProofs.
+From LJT Require Import lib.Words gen.GenSimdConst model.SimdColor model.SimdSample model.SimdQuant model.SimdDct model.SimdRows
+  proofs.SimdColorProofs proofs.SimdSampleProofs proofs.SimdQuantProofs proofs.SimdConstProofs proofs.SimdDctProofs proofs.SimdRowsProofs.
 Import ListNotations.
 Local Open Scope Z_scope.
 
@@ -78,6 +78,27 @@ Theorem C05_simd_fancy_eq : forall (w : nat) (buf0 buf1 : list Z),
   asm_h2v2_fancy jdsample_avx2_consts 32 w buf0 buf1 = c_h2v2_fancy (firstn w buf0) (firstn w buf1).
 Proof. exact simd_fancy_eq_all. Qed.
 Print Assumptions C05_simd_fancy_eq.
+
+(* row groups: every sample kernel is called with max_v_samp_factor (upsampling) / v_samp_factor (downsampling)
+   rows; its row loop (rows consumed / produced / counter decrement per iteration, read from the .asm row-loop
+   tail on every run) executes the same iterations on the same rows as the C loop, for EVERY row count n >= 1
+   and every per-iteration body *)
+Theorem C05_simd_row_loops_eq :
+  kernel_rows_eq rowloop_h2v1_upsample_sse2 c_steps_h2v1_upsample /\ kernel_rows_eq rowloop_h2v1_upsample_avx2 c_steps_h2v1_upsample /\
+  kernel_rows_eq rowloop_h2v2_upsample_sse2 c_steps_h2v2_upsample /\ kernel_rows_eq rowloop_h2v2_upsample_avx2 c_steps_h2v2_upsample /\
+  kernel_rows_eq rowloop_h2v1_fancy_upsample_sse2 c_steps_h2v1_fancy /\ kernel_rows_eq rowloop_h2v1_fancy_upsample_avx2 c_steps_h2v1_fancy /\
+  kernel_rows_eq rowloop_h2v2_fancy_upsample_sse2 c_steps_h2v2_fancy /\ kernel_rows_eq rowloop_h2v2_fancy_upsample_avx2 c_steps_h2v2_fancy /\
+  kernel_rows_eq rowloop_h2v1_downsample_sse2 c_steps_h2v1_down /\ kernel_rows_eq rowloop_h2v1_downsample_avx2 c_steps_h2v1_down /\
+  kernel_rows_eq rowloop_h2v2_downsample_sse2 c_steps_h2v2_down /\ kernel_rows_eq rowloop_h2v2_downsample_avx2 c_steps_h2v2_down.
+Proof. exact simd_row_loops_eq. Qed.
+Print Assumptions C05_simd_row_loops_eq.
+Example C05_rows_nonvacuous :
+  asm_h2v1_plain_group rowloop_h2v1_upsample_avx2 3 [[1; 2]; [3; 4]; [5; 6]] = [[1; 1; 2; 2]; [3; 3; 4; 4]; [5; 5; 6; 6]] /\
+  c_h2v1_plain_group 3 [[1; 2]; [3; 4]; [5; 6]] = [[1; 1; 2; 2]; [3; 3; 4; 4]; [5; 5; 6; 6]] /\
+  asm_h2v1_plain_group (1, 1, 2) 2 [[1; 2]; [3; 4]] = [[1; 1; 2; 2]] /\
+  asm_h2v2_plain_group rowloop_h2v2_upsample_sse2 4 [[1]; [2]] = c_h2v2_plain_group 4 [[1]; [2]] /\
+  c_h2v2_plain_group 3 [[1]; [2]] = [[1; 1]; [1; 1]; [2; 2]; [2; 2]].
+Proof. exact rows_nonvacuous. Qed.
 
 (* (5) quantisation: for every divisor compute_reciprocal() accepts (return value 1) and every
    coefficient except INT16_MIN the pmulhuw sequence is the C quantize(); compute_reciprocal()
